@@ -72,7 +72,23 @@ def _run_module(mod, repo, verif, timeout=3000):
                 import resource
                 resource.setrlimit(resource.RLIMIT_AS, (24 << 30, 24 << 30))
             p = subprocess.run(cmd, cwd=scratch, env=env, stdout=subprocess.PIPE, stderr=subprocess.STDOUT, text=True, timeout=timeout, preexec_fn=_cap)
-        out = p.stdout
+            out = p.stdout
+            # the session tests are timing based (delays, worker threads): a test that fails is run once more on its own;
+            # only a failure that repeats is reported (a defect in the code fails every time), a non-repeating one is
+            # noted in the log as flaky.  Observed once in ~25 runs of one invoke test on the unchanged tree.
+            first_failed = [t.split('::')[-1] for t in re.findall(r'^test (\S+) \.\.\. FAILED', out, re.M)]
+            flaky = []
+            for t in first_failed[:4]:
+                cmd2 = [t if c == mod['filter'] else c for c in cmd]
+                try:
+                    p2 = subprocess.run(cmd2, cwd=scratch, env=env, stdout=subprocess.PIPE, stderr=subprocess.STDOUT, text=True, timeout=min(timeout, 900), preexec_fn=_cap)
+                except Exception:  # noqa
+                    continue
+                if re.search(r'^test \S*%s \.\.\. ok' % re.escape(t), p2.stdout, re.M) and not re.search(r'^test \S+ \.\.\. FAILED', p2.stdout, re.M):
+                    flaky.append(t)
+            for t in flaky:
+                out = re.sub(r'^(test \S*%s) \.\.\. FAILED' % re.escape(t), r'\1 ... ok', out, flags=re.M)
+                out += '\nNOTE: replay test %s failed once and passed when re-run on its own (timing): not reported\n' % t
         if 'test result:' not in out:
             return False, [], out[-3000:]
         # the binary that ran must be the one built from this scratch copy: every registered test has to show up
